@@ -4,7 +4,7 @@
    value; a repeated key: the last one wins; what follows the first value is
    not looked at), then credsStore / credHelpers / auths are unmarshalled from
    their raw texts, and an auths entry is unmarshalled into AuthConfig when it
-   is looked up (field names: exact match, else ASCII case-insensitive; a null
+   is looked up (field names: exact match, else case-insensitive in the sense of bytes.EqualFold; a null
    member leaves the field; a member of another type is an error).
    Executable model only. *)
 From Oras Require Import Base.Prelude Generated.GC18 Model.Utf8 Model.Json Model.CredFile Model.JsonDoc.
@@ -181,7 +181,18 @@ Fixpoint dedup_last {V} (l : list (str * V)) : list (str * V) :=
 
 (* ---------- json.Unmarshal into AuthConfig ---------- *)
 Definition lower (c : N) : N := if in_range 65 90 c then c + 32 else c.
-Definition fold_eqb (x y : str) : bool := str_eqb (map lower x) (map lower y).
+
+(* bytes.EqualFold (Unicode simple case folding) against the ASCII field names: besides
+   the ASCII letters, U+212A KELVIN SIGN (E2 84 AA) folds to k and U+017F LATIN SMALL
+   LETTER LONG S (C5 BF) folds to s -- the only non-ASCII runes that fold to ASCII *)
+Fixpoint fold_str (s : str) : str :=
+  match s with
+  | 226 :: 132 :: 170 :: r => 107 :: fold_str r
+  | 197 :: 191 :: r => 115 :: fold_str r
+  | c :: r => lower c :: fold_str r
+  | [] => []
+  end.
+Definition fold_eqb (x y : str) : bool := str_eqb (fold_str x) (fold_str y).
 
 Definition auth_fields : list str := [b "auth"; b "identitytoken"; b "registrytoken"; b "username"; b "password"].
 
